@@ -52,6 +52,7 @@ def run(ctx, deep=False):
     ctx.count("frames", total)
     unknown_ids(ctx, frame_try, thorough)
     misread(ctx, frame_try, thorough)
+    inconsistent_lengths(ctx, frame_try, thorough)
     for gen in (4, 5):
         items = _garbage_scripts(ctx.rng, 600 if thorough else 120) + sockcheck.gen_scripts(ctx.seed * 53 + gen, [("faults", 1500 if thorough else 200)])
         good = sockcheck.judge_family(ctx, "C17", items, MONITORS, gen=gen)
@@ -119,6 +120,53 @@ def misread(ctx, frame_try, thorough):
             fr, why, txt = worst
             ctx.violation("C17:%d:misread" % gen, "AirTouch %d receive path, stream %s: %s" % (gen, codec.hx(fr), why), kind="input", gen=gen, level="misread",
                           frame=codec.hx(fr), implementation_output=txt[:300], spec_verdict=why)
+
+
+def inconsistent_lengths(ctx, frame_try, thorough):
+    """"never misread": a status frame with intact check bytes whose own length fields do not account for its payload (surplus bytes behind
+    the announced records - zeros or not -, a repeat length or record count that a single flipped bit made too small, a payload that
+    is not a whole number of records) is not a message of the vendor protocol: the independent reader finds no message in it. The receive
+    path must not hand the application a status message for it."""
+    import spec_try
+    rng = ctx.rng
+    doc = {(4, "2B"): (0x2B, 6), (4, "2D"): (0x2D, 8), (5, "C021"): (0x21, 8), (5, "C023"): (0x23, 8)}
+    for gen in (4, 5):
+        real = frame_try.Real(gen)
+        cases = []
+        for key, (mid, rec) in doc.items():
+            if key[0] != gen:
+                continue
+            for _ in range(120 if thorough else 30):
+                n = rng.randint(1, 4)
+                stride = rec if gen == 4 else rng.choice([rec, rec, rec + 2, rec + 4])
+                recs = b""
+                for i in range(n):
+                    r = bytearray(spec_try.DOC_RECORD[key][:rec].ljust(rec, b"\0")) if key in spec_try.DOC_RECORD else bytearray(rec)
+                    r[0] = (r[0] & 0xC0) | i if key != (5, "C023") else (r[0] & 0xF0) | i
+                    recs += bytes(r) + bytes(stride - rec)
+                surplus = rng.choice([bytes(k) for k in (1, 2, 4, 5, 7)] + [bytes([0, 0, 0, rng.randrange(1, 256)]), bytes(rng.randrange(256) for _ in range(3))])
+                if gen == 4:
+                    datas = [recs + surplus[:rng.choice([1, 2, 4, 5])]]
+                else:
+                    datas = [spec_try.sub_header(mid, 0, stride, n) + recs + surplus,                    # bytes behind the announced records
+                             spec_try.sub_header(mid, 0, stride - 2, n) + recs,                          # the repeat length lost a bit
+                             spec_try.sub_header(mid, 0, stride, n - 1) + recs if n > 1 else spec_try.sub_header(mid, 0, stride, n) + recs + bytes(3)]
+                for d in datas:
+                    cases.append((key, d, real.raw_frame(mid if gen == 4 else 0xC0, d)))
+        verdicts = ctx.oracle(["spec %d %s %s" % (k[0], k[1], spec_try.hx(d)) for k, d, _ in cases])
+        worst = None
+        for (key, d, fr), v in zip(cases, verdicts):
+            txt, hm = real.read_one(fr)
+            ctx.case(("inconsistent-lengths", gen, fr))
+            ctx.count("inconsistent-lengths:%d/%s:spec-%s:%s" % (key[0], key[1], "none" if v == "none" else "reads", txt.split(" ")[0]))
+            if v == "none" and hm is not None and "Unsupported" not in txt and (worst is None or len(fr) < len(worst[0])):
+                worst = (fr, key, txt)
+        if worst:
+            fr, key, txt = worst
+            why = ("the frame's own length fields do not account for its payload (the independent reader of the vendor layout finds no %d/%s message in it), "
+                   "yet the receive path delivers %s" % (key[0], key[1], txt[:200]))
+            ctx.violation("C17:%d:misread-inconsistent-lengths" % gen, "AirTouch %d receive path, stream %s: %s" % (gen, fr.hex(), why), kind="input", gen=gen,
+                          level="misread", frame=fr.hex(), implementation_output=txt[:300], spec_verdict=why)
 
 
 def subs0(known):
